@@ -7,4 +7,5 @@ From Adm Require Import Extract.Driver.
 Extraction Language OCaml.
 Set Extraction Optimize.
 Extraction "model.ml" Z.add N.add Nat.add drv_id_parse drv_id_format
-  drv_time_parse drv_time_format.
+  drv_time_parse drv_time_format
+  drv_exec drv_elems drv_docs drv_empty.
